@@ -24,8 +24,8 @@ func init() {
 		Bounds: func(thorough bool) map[string]string {
 			if thorough {
 				return map[string]string{
-					"in-addr.arpa label sequences": "0..6 labels, each 1..4 arbitrary ASCII bytes (not 'x'; not '.' when more than 2 labels), arbitrary ASCII joining byte before the root, root in every letter case, 0..2 trailing dots",
-					"ip6.arpa label sequences":     "0..34 labels of one arbitrary ASCII byte, one label (any position) 2..3 bytes wide; bytes not '.' when more than 4 labels",
+					"in-addr.arpa label sequences": "0..6 labels of one arbitrary ASCII byte, one label (any position) 1..4 bytes wide (bytes not 'x'; not '.' when more than 2 labels), arbitrary ASCII joining byte before the root, root in every letter case, 0..2 trailing dots",
+					"ip6.arpa label sequences":     "PrefixFromReversedAddr: 0..34, ExtractReversedAddr: 0..12 labels of one arbitrary ASCII byte, one label (any position) 2..3 bytes wide; bytes not '.' when more than 4 labels",
 					"free strings":                 "PrefixFromReversedAddr: every ASCII string of length 0..8; ExtractReversedAddr: X ++ root for every ASCII X of length 0..6 (joint inside X)",
 					"ip6.arpa, full length":        "30..33 labels; one label (any position) 1..3 arbitrary ASCII bytes, its neighbours one arbitrary ASCII byte, the others fixed hex digits; arbitrary joining byte, root in every case, 0..2 trailing dots",
 					"non-ASCII root":               "0..2 one-digit labels + a root in which one byte is replaced by an arbitrary two-byte UTF-8 rune (thorough: or a three-byte rune U+1000..U+CFFF), through the real idna and unicode tables",
